@@ -135,7 +135,7 @@ func NewMsg(md protoreflect.MessageDescriptor) *AMsg {
 // fields never do. For editions the feature is resolved here, independently
 // of both resolvers of the library (internal/filedesc and reflect/protodesc),
 // from the declared options: features.field_presence on the field, else on
-// the file, else the edition default (EXPLICIT for 2023 and 2024); message
+// an enclosing message (innermost first), else on the file, else the edition default (EXPLICIT for 2023 and 2024); message
 // fields and oneof members always track presence.
 func ExplicitPresence(fd protoreflect.FieldDescriptor) bool {
 	if fd.IsList() || fd.IsMap() {
@@ -153,11 +153,14 @@ func ExplicitPresence(fd protoreflect.FieldDescriptor) bool {
 	if fd.Message() != nil || fd.ContainingOneof() != nil {
 		return true
 	}
-	if fp, ok := declaredFieldPresence(fd.Options()); ok {
-		return fp != descriptorpb.FeatureSet_IMPLICIT
-	}
-	if fp, ok := declaredFieldPresence(fd.ParentFile().Options()); ok {
-		return fp != descriptorpb.FeatureSet_IMPLICIT
+	// nearest explicit setting along the chain field <- enclosing messages <- file
+	for d := protoreflect.Descriptor(fd); d != nil; d = d.Parent() {
+		if fp, ok := declaredFieldPresence(d.Options()); ok {
+			return fp != descriptorpb.FeatureSet_IMPLICIT
+		}
+		if _, isFile := d.(protoreflect.FileDescriptor); isFile {
+			break
+		}
 	}
 	return true
 }
